@@ -753,7 +753,7 @@ func (gen *c12Gen) genKustomization(g *Rng, dir string, resources []string, objs
 				}
 				mapSet(s, "fieldPath", ys(sp))
 			}
-			if g.Chance(12) {
+			if g.Chance(30) {
 				mapSet(s, "options", ym("delimiter", ys(g.Pick([]string{":", "/", "-"})), "index", yi(0)))
 			}
 			if src.ns != "" && g.Chance(25) {
@@ -1063,6 +1063,32 @@ func (gen *c12Gen) mutateOnce(g *Rng, t *c12Tree) string {
 		return ""
 	}
 	ref := refs[g.Intn(len(refs))]
+	// option values of the directives (counts, indices, flags, delimiters) are few among many nodes:
+	// aim at a scalar leaf of a kustomization / config file now and then
+	leafMode := false
+	if (f.role == "kustomization" || f.role == "config") && g.Chance(22) {
+		var leaves []nodeRef
+		for _, r := range refs {
+			if r.node.Kind == yaml.ScalarNode && r.parent != nil {
+				leaves = append(leaves, r)
+			}
+		}
+		if len(leaves) > 0 {
+			// prefer numbers and flags
+			var nums []nodeRef
+			for _, r := range leaves {
+				if r.node.Tag == "!!int" || r.node.Tag == "!!bool" {
+					nums = append(nums, r)
+				}
+			}
+			if len(nums) > 0 && g.Chance(50) {
+				ref = nums[g.Intn(len(nums))]
+			} else {
+				ref = leaves[g.Intn(len(leaves))]
+			}
+			leafMode = true
+		}
+	}
 	// bias: avoid replacing a whole document most of the time
 	if ref.parent == nil && len(refs) > 1 && g.Chance(85) {
 		ref = refs[1+g.Intn(len(refs)-1)]
@@ -1107,6 +1133,9 @@ func (gen *c12Gen) mutateOnce(g *Rng, t *c12Tree) string {
 	where := fmt.Sprintf("@%s:%d%s", f.path, ref.doc, ref.path)
 	n := ref.node
 	op := g.Intn(100)
+	if leafMode {
+		op = 70 + g.Intn(20) // string / number extension
+	}
 	switch {
 	case op < 26: // retype
 		var nn *yaml.Node
@@ -1195,6 +1224,15 @@ func (gen *c12Gen) mutateOnce(g *Rng, t *c12Tree) string {
 		}
 		m := g.Pick(c12Meta)
 		old := sc.Value
+		if (sc.Tag == "!!int" || sc.Tag == "!!bool") && g.Chance(70) {
+			// boundary values for numbers and flags: off-by-one territory
+			sc.Value = g.Pick([]string{"-1", "0", "1", "2", "3", "99", "-99", "2147483648", "9223372036854775808", "-9223372036854775809", "1.5", "1e3", "true", "false", "0x10", "010"})
+			sc.Tag = ""
+			if g.Chance(15) {
+				sc.Tag = "!!str"
+			}
+			return fmt.Sprintf("meta:number %s %s", sc.Value, where)
+		}
 		switch g.Intn(5) {
 		case 0:
 			sc.Value = m + old
